@@ -251,9 +251,11 @@ pub fn worker_main(args: &Args) -> i32 {
                 let mut spec = sim_group::derive_spec(args.seed, tier, idx, &corpus, shape_for(args, tier));
                 if job.get("isolation").and_then(Value::as_str) == Some("process") && tier == Tier::InProc {
                     // second chance for a group whose launches took the worker down: every launch
-                    // in a process of its own, so that the crash is one observation among others
+                    // in a process of its own, so that the crash is one observation among others,
+                    // and more launches than usual (an ending that shows in one launch in ten is
+                    // otherwise likely to be missed among the crashes)
+                    spec = sim_group::derive_spec(args.seed, tier, idx, &corpus, sim_group::Shape { plans: 24 });
                     spec.isolation = "process".to_owned();
-                    spec.plans.truncate(6);
                 }
                 let run = || {
                     let out = sim_group::run_spec(&spec, &envs, &tag, true);
